@@ -1,1 +1,97 @@
-pub fn bkd(_args: &[&str]) -> String { "TODO".into() }
+//! BKD: `Backend::next` over a scripted transport.
+//! args: `F:<fillbyte hex>` then script items `<addr>:<hex>` (datagram), `E` (recv error), `X` (stop flag cleared)
+//! output: `<addr> <decoded>` per yielded message joined by ` | `, then `END calls=<recv calls>`
+use crate::unhex;
+use portus::ipc::{Backend, Ipc};
+use std::collections::VecDeque;
+use std::sync::atomic::{AtomicBool, AtomicUsize, Ordering};
+use std::sync::{Arc, Mutex};
+
+pub enum Item {
+    Dgram(u32, Vec<u8>),
+    RecvErr,
+    Stop,
+}
+
+pub struct Scripted {
+    pub script: Mutex<VecDeque<Item>>,
+    pub flag: Arc<AtomicBool>,
+    pub recvs: Arc<AtomicUsize>,
+}
+
+impl Ipc for Scripted {
+    type Addr = u32;
+    fn name() -> String {
+        "scripted".into()
+    }
+    fn send(&self, _msg: &[u8], _to: &u32) -> portus::Result<()> {
+        Ok(())
+    }
+    fn recv(&self, msg: &mut [u8]) -> portus::Result<(usize, u32)> {
+        self.recvs.fetch_add(1, Ordering::SeqCst);
+        match self.script.lock().unwrap().pop_front() {
+            None | Some(Item::Stop) => {
+                self.flag.store(false, Ordering::SeqCst);
+                Err(portus::Error("stop".into()))
+            }
+            Some(Item::RecvErr) => Err(portus::Error("recv error".into())),
+            Some(Item::Dgram(a, d)) => {
+                let n = d.len().min(msg.len());
+                msg[..n].copy_from_slice(&d[..n]);
+                Ok((n, a))
+            }
+        }
+    }
+    fn close(&mut self) -> portus::Result<()> {
+        Ok(())
+    }
+}
+
+pub fn parse_item(t: &str) -> Option<Item> {
+    match t {
+        "E" => Some(Item::RecvErr),
+        "X" => Some(Item::Stop),
+        _ => {
+            let (a, h) = t.split_once(':')?;
+            Some(Item::Dgram(a.parse().ok()?, unhex(h)?))
+        }
+    }
+}
+
+pub fn bkd(args: &[&str]) -> String {
+    if args.is_empty() {
+        return "BADARG".into();
+    }
+    let fill = match args[0].strip_prefix("F:").and_then(|h| u8::from_str_radix(h, 16).ok()) {
+        Some(f) => f,
+        None => return "BADARG".into(),
+    };
+    let items: Option<VecDeque<Item>> = args[1..].iter().map(|t| parse_item(t)).collect();
+    let items = match items {
+        Some(i) => i,
+        None => return "BADARG".into(),
+    };
+    let flag = Arc::new(AtomicBool::new(true));
+    let recvs = Arc::new(AtomicUsize::new(0));
+    let sock = Scripted {
+        script: Mutex::new(items),
+        flag: flag.clone(),
+        recvs: recvs.clone(),
+    };
+    let mut buf = [fill; 1024];
+    let mut out = vec![];
+    {
+        let mut b = Backend::new(sock, flag.clone(), &mut buf[..]);
+        let mut guard = 0usize;
+        while let Some((m, a)) = b.next() {
+            out.push(format!("{} {}", a, crate::wire::show_msg(&m, 0)));
+            guard += 1;
+            if guard > 100_000 {
+                out.push("RUNAWAY".into());
+                break;
+            }
+        }
+    }
+    out.push("END".to_string());
+    out.join(" | ")
+}
